@@ -296,6 +296,7 @@ package parser
 
 //@ func toNumber
 //@ props C03
+//@ traced_optin numString -> result.1; result.0
 //@ ensures [C03] hex: pfx2(numString, "0x") ==> intIs(result.0, result.1, substr(numString, 2, len(numString)), 16)
 //@ ensures [C03] hexneg: !pfx2(numString, "0x") && pfx3(numString, "-0x") ==> intIs(result.0, result.1, concat("-", substr(numString, 3, len(numString))), 16)
 //@ ensures [C03] bin: !pfx2(numString, "0x") && !pfx3(numString, "-0x") && pfx2(numString, "0b") ==> intIs(result.0, result.1, substr(numString, 2, len(numString)), 2)
